@@ -119,6 +119,36 @@ def range_not_identity(c, n=2):
     c.expect_raise('gradient_refused_for_expansion_range', lambda: model2.gradient(c.vec('e', 2), c.vec('q', n)))
 
 
+def mapped_range(c, inner='KL'):
+    """range geometry = mapped geometry over an inner geometry whose function-to-parameter map is a genuine projection: the model's
+    output is the range PARAMETER vector, i.e. inner.fun2par(imap(function values)), for every input representation"""
+    from cuqi.geometry import KLExpansion
+    m, n = 6, 2
+    if inner == 'KL': gi = KLExpansion(np.linspace(0, 1, m), num_modes=3)
+    else: gi = StepExpansion(np.linspace(0, 1, m), n_steps=3, fun2par_projection='mean')
+    # (square map for the step expansion: the mean projection does not commute with it)
+    fmap, fimap = ((lambda v: 2 * v + 1), (lambda f: (f - 1) / 2)) if inner == 'KL' else ((lambda v: v * v + 1), None)
+    gr = MappedGeometry(gi, map=fmap, imap=(fimap if fimap else (lambda f: f - 1)))      # for Step: imap only needs to be what the spec below applies
+    B = c.mat('B', m, n)
+    model = Model(lambda x: B @ x, gr, n)
+    p = c.vec('p', n)
+    spec = gi.fun2par(gr.imap(B @ p))
+    cc = c
+    if inner == 'KL' and c.sym:
+        class _A:
+            def __init__(s, c): s._c = c
+            def __getattr__(s, k): return getattr(s._c, k)
+            def eq(s, name, a, b, note='', tol=None, approx=True): return s._c.eq(name, a, b, note=note, tol=tol, approx=True)
+        cc = _A(c)
+    out = model.forward(p)
+    cc.eq('output_is_range_parameters_of_the_function_values', np.asarray(out), spec, tol=1e-7)
+    oa = model.forward(CUQIarray(p.copy(), is_par=True, geometry=model.domain_geometry))
+    c.holds('cuqiarray_output_is_parameters_with_range_geometry', isinstance(oa, CUQIarray) and oa.is_par and oa.geometry == gr)
+    cc.eq('cuqiarray_output_values', np.asarray(oa), spec, tol=1e-7)
+    a = CUQIarray(B @ p, is_par=False, geometry=gr)
+    cc.eq('function_form_array_converts_to_the_same_parameters', np.asarray(a.parameters), spec, tol=1e-7)
+
+
 def apply_to_distribution(c, n=2):
     A = c.mat('A', 2, n)
     model = LinearModel(A)
@@ -156,6 +186,8 @@ def jobs(tier):
             J.append(Job(f'gradient:{kind}:domain={dom}', lambda c, k=kind, d=dom, n=n: gradient(c, k, d, 2, n), 'Pbox', GL, rtol=1e-4, maxpaths=256))
             if not q:
                 J.append(Job(f'gradient:{kind}:domain={dom}:m=3:n={n + 2 if dom.startswith("Image2D") else 3}', lambda c, k=kind, d=dom, n=n: gradient(c, k, d, 3, n + 2 if d.startswith('Image2D') else 3), 'Pbox', GL, rtol=1e-4, maxpaths=256))
+    for inner in ('KL', 'Step'):
+        J.append(Job(f'forward:range_geometry=Mapped({inner}):output_is_range_parameters', lambda c, i=inner: mapped_range(c, i), 'Pbox', FL + ['cuqi.geometry._geometry:MappedGeometry.fun2par']))
     J.append(Job('gradient:range_geometry_not_identity', range_not_identity, 'Pbox', GL))
     J.append(Job('forward:applied_to_distribution_only_renames', apply_to_distribution, 'Pbox', [f'{M}:Model.forward']))
     return J
